@@ -90,8 +90,9 @@ theorem pageSmall_of_chunk (D : Deps) (codec : Nat) (m : ChunkMeta) (ps : List P
   intro r hr
   obtain ⟨a1, a2, a3, _, _⟩ := h
   refine ⟨?_, ?_, ?_⟩
-  · have := le_sum_of_mem (ps.map (·.body.length)) r.body.length (List.mem_map.mpr ⟨r, hr, rfl⟩)
-    simp only [sumBody] at a3; omega
+  · have := le_sum_of_mem (ps.map (PageRec.usize D)) (r.usize D) (List.mem_map.mpr ⟨r, hr, rfl⟩)
+    have hb : r.body.length ≤ r.usize D := by unfold PageRec.usize; omega
+    simp only [sumUsize] at a3; omega
   · have := length_le_flatten_of_mem (ps.map (PageRec.bytes D)) (r.bytes D) (List.mem_map.mpr ⟨r, hr, rfl⟩)
     simp only [pagesBytes] at a2
     have hb : r.comp.length ≤ (r.bytes D).length := by simp [PageRec.bytes]
@@ -116,7 +117,7 @@ theorem chunksAt_bounds : ∀ (ms : List ChunkMeta) (start : Nat), ChunksAt ms s
 
 theorem groupsAt_bounds : ∀ (gs : List RgMeta) (start : Nat), GroupsAt gs start →
     ∀ g ∈ gs, start ≤ g.fileOffset ∧ g.fileOffset + g.totalCompressed ≤ start + groupsSize gs ∧
-      g.totalByteSize = g.totalCompressed ∧
+      g.totalByteSize = chunksUncompressed g.chunks ∧
       ∀ m ∈ g.chunks, start ≤ m.fileOffset ∧ m.fileOffset + m.totalCompressed ≤ start + groupsSize gs
   | [], _, _ => fun g hg => by simp at hg
   | a :: r, start, h => by
@@ -125,7 +126,7 @@ theorem groupsAt_bounds : ∀ (gs : List RgMeta) (start : Nat), GroupsAt gs star
     have ih := groupsAt_bounds r (start + a.totalCompressed) h5
     rcases List.mem_cons.mp hg with rfl | hg'
     · simp only [groupsSize, List.map_cons, List.sum_cons]
-      refine ⟨by omega, by omega, by omega, ?_⟩
+      refine ⟨by omega, by omega, h4, ?_⟩
       intro m hm
       have := chunksAt_bounds g.chunks start h2 m hm
       omega
@@ -310,7 +311,17 @@ theorem runSmall_of_output (o : FileReal.Oracle) (codec : Nat)
         · rw [hcod]; rcases hcodec with h | h | h | h <;> omega
         · rw [hpath]; exact hs.names c hc
       · rw [hlen]; have := hs.count; omega
-      · omega
+      · -- total_byte_size = Σ total_uncompressed_size of fewer than 10000 chunks, each below 2^31
+        have hlt : ∀ x ∈ gm.chunks.map (·.totalUncompressed), x < 2147483648 := by
+          intro x hx
+          obtain ⟨m, hm, rfl⟩ := List.mem_map.mp hx
+          exact (ho.chunks gm hgm m hm).2
+        have hsum := sum_le_of_forall_lt _ _ hlt
+        simp only [List.length_map] at hsum
+        have hcnt := hs.count
+        have : gm.chunks.length * 2147483648 ≤ 10000 * 2147483648 :=
+          Nat.mul_le_mul_right _ (by rw [hlen]; omega)
+        rw [b3]; unfold chunksUncompressed; omega
       · rw [hnr]
         have hle := firstRecs_le o codec cols gm.chunks g hall (hf.groupOf g hg) (hf.groupP g hg)
         cases hc : gm.chunks with
